@@ -8,6 +8,16 @@ from vlib.core import sx, q
 PROP = "C07"
 MODE = "loader"
 PROPS_FILES = ["theories/Props/C07.v"]
+def pregen():
+    """regenerate coq/theories/Gen/InstrArms.v from the current Rust source (translators/instr_arms.py): the per-instruction arm
+    obligations of Props/C07.v are stated over that table"""
+    import os, sys
+    from vlib import core as _core
+    sys.path.insert(0, os.path.join(_core.ROOT, "translators"))
+    import armlib
+    return armlib.pregen(PROP, [("instr_arms", "theories/Proofs/InstrArmsP.vo")])
+
+
 RULE = ("emitted files of a program family (every modelled kind of constant: typed scalars u8..u128/i8..i128/f32/f64, strings incl. "
         "multi-byte, rationals, complex, bool, index, matrices of several kinds and shapes) and files laid out by CompileCtx::compile with "
         "1..40 defined symbols x {identity: every decoded section and every decoded constant value compared with the Coq model's decoding "
